@@ -32,6 +32,8 @@ int g_db_had_imm;                 /* an immutable memtable exists when the read 
 
 void ldb_mutex_lock(ldb_mutex_t *m) {
   __CPROVER_assert(m == &g_db->mutex && !g_held, "lock: DB mutex not held");
+  /* while we wait for the mutex other threads keep publishing writes */
+  if (nondet_int()) { uint64_t adv = nondet_u64(); __CPROVER_assume(adv < (1ull << 40) && g_db->versions->last_sequence < (1ull << 56) - adv); g_db->versions->last_sequence += adv; }
   g_held = 1; g_locks++;
   if (!g_first_lock_done) { g_first_lock_done = 1; g_seq_at_lock = g_db->versions->last_sequence; }
 }
@@ -96,6 +98,8 @@ void h_get(void) {
   int use_snapshot = nondet_int() ? 1 : 0, rc;
   __CPROVER_assume(db != NULL);
   g_db = db; db->versions = &g_versions; g_versions.current = &g_ver0;
+  g_db_had_imm = nondet_int() ? 1 : 0;   /* (globals are zero-initialised in units without contract instrumentation) */
+  g_snap.sequence = nondet_u64(); g_versions.last_sequence = nondet_u64();
   db->mem = &g_mem0; db->imm = g_db_had_imm ? &g_imm0 : NULL;
   __CPROVER_assume(g_versions.last_sequence < (1ull << 55));
   g_ropt.snapshot = use_snapshot ? &g_snap : NULL;
@@ -132,6 +136,7 @@ void h_snapshot(void) {
   int have = nondet_int() % 3;   /* 0, 1 or 2 snapshots already live */
   __CPROVER_assume(db != NULL && have >= 0);
   g_db = db; db->versions = &g_versions; g_versions.current = &g_ver0; db->mem = &g_mem0; db->imm = NULL;
+  g_versions.last_sequence = nondet_u64();
   __CPROVER_assume(g_versions.last_sequence < (1ull << 55));
   ldb_snaplist_init(&db->snapshots);
   s1 = s2 = NULL;
